@@ -277,7 +277,7 @@ func runCheck(spec *CheckSpec, tier string) int {
 			unconfirmed[vr.g.key] = fmt.Sprintf("native outcome %s/%s %s", r.Outcome, r.Tag, r.Msg)
 		}
 	}
-	os.MkdirAll(filepath.Join(verifDir, "replays", spec.ID), 0o755)
+	os.MkdirAll(filepath.Join(outDir, "replays", spec.ID), 0o755)
 	nViol := 0
 	knownSeen := map[string]bool{}
 	for _, k := range order {
@@ -295,7 +295,7 @@ func runCheck(spec *CheckSpec, tier string) int {
 				}
 			}
 			nViol++
-			path := filepath.Join(verifDir, "replays", spec.ID, fmt.Sprintf("v%03d.json", nViol))
+			path := filepath.Join(outDir, "replays", spec.ID, fmt.Sprintf("v%03d.json", nViol))
 			rf := map[string]interface{}{
 				"property": spec.ID, "harness": v.Scn.Harness, "params": v.Scn.Params, "tape": v.Tape,
 				"expect": map[string]string{"kind": v.Kind, "tag": v.Tag}, "where": v.Where,
@@ -440,6 +440,6 @@ func (c *CheckRun) writeEvidence(code int) {
 		ev["violations"] = 0
 	}
 	b, _ := json.MarshalIndent(ev, "", " ")
-	os.MkdirAll(filepath.Join(verifDir, "evidence"), 0o755)
-	os.WriteFile(filepath.Join(verifDir, "evidence", spec.ID+".json"), b, 0o644)
+	os.MkdirAll(filepath.Join(outDir, "evidence"), 0o755)
+	os.WriteFile(filepath.Join(outDir, "evidence", spec.ID+".json"), b, 0o644)
 }
